@@ -81,11 +81,35 @@ class VSocket:
         s = self.accept_queue.pop(0)
         return s, ("192.0.2.%d" % (s.fd % 250), 50000 + s.fd)
 
+    _SOFT = (errno.EAGAIN, errno.EWOULDBLOCK, errno.EINTR, errno.ENOBUFS, getattr(errno, "ENOSR", -1))
+
+    def getpeername(self):
+        """as on a real TCP socket: the remote address while the connection exists (also after the peer's orderly close);
+        ENOTCONN once the connection was reset / has failed, or before a non-blocking connect has completed"""
+        if self.closed:
+            raise OSError(errno.EBADF, "bad file descriptor")
+        if getattr(self, "reset", False) or isinstance(self.connect_outcome, OSError) or \
+                (self.connect_outcome == "inprogress" and not self.writable):
+            raise OSError(errno.ENOTCONN, "transport endpoint is not connected")
+        return getattr(self, "peer_addr", ("192.0.2.%d" % (self.fd % 250), 50000 + self.fd))
+
+    def shutdown(self, how):
+        if self.closed:
+            raise OSError(errno.EBADF, "bad file descriptor")
+
+    def settimeout(self, t):
+        pass
+
+    def gettimeout(self):
+        return 0.0
+
     def recv(self, n):
         if not self.inbox:
             raise OSError(errno.EAGAIN, "would block")
         x = self.inbox.pop(0)
         if isinstance(x, OSError):
+            if x.errno not in self._SOFT:
+                self.reset = True
             raise x
         if len(x) > n:
             self.inbox.insert(0, x[n:])
@@ -98,6 +122,8 @@ class VSocket:
         if self.send_script:
             x = self.send_script.pop(0)
             if isinstance(x, OSError):
+                if x.errno not in self._SOFT:
+                    self.reset = True
                 raise x
             n = max(1, min(x, len(data)))
         else:
